@@ -850,3 +850,36 @@ def rule_var_without_initialiser_stores_nothing(ctx, rep, rid: str) -> None:
                 rep.bad(rid, key, f"{m.qual}: a declarator without initialiser still reaches an emitted store (lines {[x.line for x in bad if x.line][:6]}): `x = 5; var x; x` gives undefined, a `var t;` inside a loop resets t on every trip, and a global set by the embedder is lost when a script merely declares it", f"{m.module.rel}:{bad[-1].line}")
     if n == 0:
         raise AnalysisError(f"{rid}: the code generator's loop over var declarators was not found")
+
+
+# ---- the var declarations of a function body are its locals from the start ----------------------------------
+
+
+def rule_declared_vars_registered_first(ctx, rep, rid: str) -> None:
+    """`var` declarations are hoisted: every name declared anywhere in a function body is a local of that function from
+    its first instruction on.  A function compiler that collects the declared names (for the capture analysis) but
+    does not enter them into its table of locals before compiling the body resolves uses ABOVE the declaration - and
+    closures created above it - against the enclosing scopes and the globals."""
+    rep.rule(rid, "every function compiler that collects the var declarations of a body (`_collect_var_decls`) enters the collected names into `self.locals` in a loop that precedes the compilation of the body", floor=2)
+    comp = ctx.tree.class_named("Compiler")
+    n = 0
+    for m in comp.methods.values():
+        if isinstance(m.node, ast.Lambda) or m.name == "_collect_var_decls":
+            continue
+        calls = [c for c in m.own_nodes() if isinstance(c, ast.Call) and norm(c.func) == "self._collect_var_decls" and len(c.args) >= 2 and isinstance(c.args[1], ast.Name)]
+        if not calls or not any(isinstance(c, ast.Call) and norm(c.func) == "CompiledFunction" for c in m.own_nodes()):
+            continue
+        n += 1
+        setname = calls[0].args[1].id
+        key = f"{m.qual}:{setname}:registered-before-body"
+        loops = [l for l in m.own_nodes() if isinstance(l, ast.For) and any(isinstance(x, ast.Name) and x.id == setname for x in ast.walk(l.iter)) and any(isinstance(c, ast.Call) and norm(c.func) in ("self.locals.append", "self._add_local") for b in l.body for c in ast.walk(b))]
+        # or in one step: self.locals.extend(<expression over the collected set>)
+        loops += [c for c in m.own_nodes() if isinstance(c, ast.Call) and norm(c.func) in ("self.locals.extend", "self.locals.__iadd__") and any(isinstance(x, ast.Name) and x.id == setname for a in c.args for x in ast.walk(a))]
+        loops += [a for a in m.own_nodes() if isinstance(a, ast.AugAssign) and norm(a.target) == "self.locals" and any(isinstance(x, ast.Name) and x.id == setname for x in ast.walk(a.value))]
+        body_calls = [c.lineno for c in m.own_nodes() if isinstance(c, ast.Call) and norm(c.func) in ("self._compile_statement", "self._compile_expression")]
+        if loops and body_calls and min(l.lineno for l in loops) < min(body_calls):
+            rep.ok(rid, key)
+        else:
+            rep.bad(rid, key, f"{m.qual} collects the var declarations of the body into `{setname}` but does not enter them into self.locals before compiling the body: a use above the declaration resolves to a global (`(() => {{ x = 1; var x; }})()` creates a global x) and a closure created above it cannot see the variable (`var g = function(){{ return x }}; var x = 5; g()` inside the function throws ReferenceError)", m.loc)
+    if n < 2:
+        raise AnalysisError(f"{rid}: fewer than two function compilers collect var declarations ({n})")
